@@ -87,21 +87,25 @@ def groups():
         gs.append(Group('genU_popSymbols' + sfx, ['C03', 'C16', 'C04', 'C07', 'C02'], 'GenState::popSymbols (Compiler/src/gen.cpp)', 'c_popSymbols',
                         _gen_build('gen_sym.c', 'popSymbols', unwind=kr + 2, cdefs=[f'K_REG={kr}', f'K_TBL={kt}']), timeout=3600, tier=tier,
                         bounded=f'BOUNDED stand-in: <= 2 marks, <= {kr} registers in the routine being finished, tables of capacity {kt}, --unwind {kr + 2} --unwinding-assertions (its two loops live in a function whose locals cannot be named in loop contracts)'))
+    gs += drv_groups()
     return gs
 
 
-def _drv_build(which, fn, replace, enforce, loops=None):
+def _drv_build(which, fn, replace, enforce, loops=None, cdefs=(), unwind=None, csrc='gen_drv.c'):
     import gendrv
 
     def build(gw, rl):
         n_layout, xlayout = genunit.gen_mirror(gw)
         name, expected = gendrv.build_drv_unit(gw, rl, which)
         rl.check(expected)
-        b = {'c_sources': [os.path.join(CONTRACTS, 'gen_drv.c')], 'cxx_sources': [os.path.join(gw, name)], 'cdefs': [],
+        b = {'c_sources': [os.path.join(CONTRACTS, csrc)], 'cxx_sources': [os.path.join(gw, name)], 'cdefs': [],
                 'entry': 'h_' + fn, 'dropped': DROPPED_GEN, 'min_obligations': 10, 'cbmc_flags': ['--unwinding-assertions', '--no-malloc-may-fail'],
                 'replace': list(replace), 'enforce': [enforce]}
         if loops:
             b['loops_tpl'] = os.path.join(CONTRACTS, loops)
+        b['cdefs'] = list(cdefs)
+        if unwind:
+            b['cbmc_flags'] = b['cbmc_flags'] + ['--unwind', str(unwind), '--unwindset', '__CPROVER_contracts_write_set_check_assigns_clause_inclusion.0:40']
         return b
     return build
 
@@ -112,6 +116,13 @@ def drv_groups():
                   _drv_build('dispatchVoid', 'dispatchVoid_top', DV + ['w_dispatchVoid_rec/c_dv_rec', 'w_advanceLine/c_dv_advanceLine', 'w_removeTopPotBreak/c_dv_removeTopPotBreak'],
                              'w_dispatchVoid/c_dispatchVoid_top'), timeout=900,
                   note='every callee (the seven statement routines, advanceLine, removeTopPotBreak, the recursive calls) replaced by a contract that records its call in ghosts'),
-            Group('gen_gen_ast', ['C02', 'C01', 'C04'], 'gen_ast (Compiler/src/gen.cpp)', 'c_gen_ast',
-                  _drv_build('gen_ast', 'gen_ast', ['w_dispatchVoid/c_dv_root'], 'w_gen_ast/c_gen_ast', loops='gen_ast.loops.json.in'), timeout=1800, expect_loops=1,
-                  note='the forwarding loop is closed by a loop contract; dispatchVoid replaced by a recording contract')]
+            Group('genU_gen_ast', ['C02', 'C01', 'C04'], 'gen_ast (Compiler/src/gen.cpp)', 'c_gen_ast',
+                  _drv_build('gen_ast', 'gen_ast', ['w_dispatchVoid/c_dv_root'], 'w_gen_ast/c_gen_ast', cdefs=['IE_CAP=3'], unwind=5), timeout=900,
+                  bounded='BOUNDED stand-in: at most 3 parser errors to forward, --unwind 5 --unwinding-assertions (the loop-contract variant over a symbolic-size array of 20-byte records did not finish in 30 min)',
+                  note='dispatchVoid replaced by a recording contract')]
+
+
+def top_groups():
+    return [Group('gen_gen', ['C02', 'C03', 'C04', 'C01', 'C16', 'C17', 'C19'], 'Theo::gen (Compiler/src/gen.cpp)', 'c_gen',
+                  _drv_build('gen', 'gen', ['w_gen_ast/c_gen_ast_g', 'w_popSymbols/c_popSymbols_g', 'w_backpatch/c_backpatch_g'], 'w_gen/c_gen', csrc='gen_top.c'),
+                  timeout=900, note='gen_ast, popSymbols, backpatch replaced by contracts over the local generator state (N12 hook records its address)')]
